@@ -105,9 +105,15 @@ pub fn scenario(name: &str, params: &Value) -> Scenario {
                         St::AwaitComp => PUBCOMP_REASONS,
                         _ => &[],
                     };
+                    // short form; long form with a reason string and user properties; long form whose
+                    // properties take more than 127 bytes (two-byte Property Length)
+                    let long = "L".repeat(140);
                     for r in rs {
-                        for tagged in [false, true] {
-                            if let Some(p) = s.ack_for(i, *r, if tagged { "why" } else { "" }) {
+                        for tag in ["", "why", long.as_str()] {
+                            if tag.len() > 100 && !matches!(*r, 0x00 | 0x80 | 0x92) {
+                                continue;
+                            }
+                            if let Some(p) = s.ack_for(i, *r, tag) {
                                 e.push(Ev::Deliver(p));
                             }
                         }
